@@ -6,6 +6,7 @@ CONSTANTS
   MaxClaims = 1
   BuildUnderLock = FALSE
   NotifyAlways = FALSE
+  CoalesceRebuilds = FALSE
 INVARIANTS
   R_Settled
 CHECK_DEADLOCK FALSE
